@@ -4,4 +4,5 @@ INVARIANT Inv
 CONSTANTS
  Encs = {1, 2, 3, 4}
  Layouts = {1, 2}
+ IdxBases = {0, 252, 32510}
 CHECK_DEADLOCK FALSE
